@@ -99,6 +99,33 @@ CLAIMED = {
         "gcc/g++/gfortran 12 as the meaning of the languages; values within int range; division by zero excluded.",
         "DESIGN.md section 3 C11",
     ),
+    "C05": (
+        "exhaustive enumeration of (library, language, wrapper subset, F_CFI, formatting, line length) configurations; compilers and linker as oracle; failing libraries bisected to single functions",
+        "(a) each of the 50 upstream corpus configurations is generated; the 33 that have a wrapped library under regression/run are compiled and linked with it and upstream's own "
+        "Fortran test program is built and run; (b) every library assembled from the atom table (each atom alone, pairs) x {c, c++} x wrapper subsets x F_CFI; (c) the formatting product "
+        "{debug, doxygen, literalinclude, show_splicer_comments} x line lengths. Every header is compiled alone as C and as C++, every C/C++ source compiled, Fortran modules in dependency "
+        "order, Python sources against CPython 3.12 headers, Lua sources against the reference emulator's headers, and objects linked with the wrapped library under --no-undefined.",
+        "gcc/g++/gfortran 12 and CPython 3.12 only; numpy- and MPI-dependent files are skipped and counted. Eight defect classes (mostly F_CFI with std::vector, Python with vectors/enums) are known findings.",
+        "DESIGN.md section 3 C05",
+    ),
+    "C10": (
+        "exhaustive enumeration of (destination length, source length, content) for every C/C++ string helper extracted from shroud's own output, byte-exact reference, guard bytes and AddressSanitizer; exhaustive Fortran end-to-end sweep of string atoms",
+        "The helper sources written by `shroud --write-helpers` (ShroudStrCopy, ShroudStrBlankFill, ShroudLenTrim, ShroudStrAlloc/Free, ShroudStrArrayAlloc/Free, ShroudStrToArray, copy_string; C and C++ "
+        "variants) are compiled into a harness and run on every length 0..5 (thorough 0..7) and every content over {a, b, blank}, with exact-size heap buffers between guard bytes, plain and under "
+        "AddressSanitizer (121k cases quick); observed bytes must equal a Python reference of the documented rule. End to end, every string atom (char*, std::string by value/reference/pointer, "
+        "in/out/inout, results with and without +len) is called from Fortran through freshly generated wrappers with every text of length 0..3 (4) over {a, blank} and every declared length, c and c++, F_CFI off and on.",
+        "Preconditions per helper as its call sites establish them. gcc/g++/gfortran 12.",
+        "DESIGN.md section 3 C10",
+    ),
+    "C01": (
+        "exhaustive enumeration of functions assembled from the atom table (L1 each atom alone, L2 ordered pairs, L3 triples) x value alphabets x {c,c++} x F_CFI x debug; generated wrappers compiled and executed against an instrumented library; reference-model trace equality",
+        "Every argument atom and result atom of the admitted grammar alone, every ordered pair over atom-class representatives (and, thorough, triples over eight colliding classes), "
+        "with trailing defaults reached through the generic name, is wrapped by the real shroud for {c, c++} x {F_CFI off, on} x {debug}; the generated C and Fortran wrappers are compiled "
+        "with an instrumented subject library and a generated Fortran driver performs every call over the product of the atoms' value alphabets (boundary integers/reals, blank-containing "
+        "and full-length strings, arrays of length 0/1/3). The library's RECV trace and the driver's observations must equal the reference model line by line (2.9k calls quick).",
+        "Functions that do not generate or build are property C05's subject and are listed as uncovered here. Value alphabets are boundary sets, not all values.",
+        "DESIGN.md section 3 C01",
+    ),
 }
 
 PENDING_REASON = "check not built yet in this round (planned, see DESIGN.md section 8); not claimed until it runs"
